@@ -1080,8 +1080,13 @@ impl<'a, 'b, W: Write> Serializer for &'a mut YamlSerializer<'b, W> {
                     // If it's already multiline and long, emit literal block style for readability.
                     let char_len = v.chars().count();
                     if char_len > self.folded_wrap_col {
-                        self.pending_str_style = Some(StrStyle::Literal);
-                        self.pending_str_from_auto = true;
+                        // A block scalar carries its text verbatim: control characters (CR is
+                        // a line break for the parser, NUL ends its input) need the escapes
+                        // of a double-quoted scalar.
+                        if !v.chars().any(|c| c.is_control() && c != '\n' && c != '\t') {
+                            self.pending_str_style = Some(StrStyle::Literal);
+                            self.pending_str_from_auto = true;
+                        }
                     } else {
                         // If removing newlines makes it plain-safe, then the only problem was
                         // newlines → allow literal block style. Otherwise, don't auto-select block
